@@ -10,10 +10,11 @@ RULE = ('a case is (batch, sequence of 2-6 renderings with repeats) applied to t
         'CLI list through the real to_string and the per-format functions (auto_of, xml_of, to_jigg_xml, conll_of, json_of, ptb_of, '
         'deriv_of, to_mathml, to_prolog_*, ja_of); monitors: deep fingerprint of the object graph (identities, fields, token items in '
         'order, categories) before/after every rendering, and every output equal to the output of the same rendering on a deep copy '
-        'taken before any rendering. distinct = fingerprint of (batch, sequence); non-trivial = sequence has >= 2 renderings and the '
+        'taken before any rendering; plus, in pairs of fresh processes, the same results rendered in all formats in one order and in '
+        'the reverse order (what a process renders first must not decide what it renders later). distinct = fingerprint of (batch, sequence); non-trivial = sequence has >= 2 renderings and the '
         'batch a tree with >= 2 leaves.')
 ASSUMPTIONS = ['fingerprint covers Tree/Token/Category objects reachable from the result lists']
-REQUIRED_MONITORS = {'fingerprint:compared': 500, 'output:compared-with-fresh-copy': 500}
+REQUIRED_MONITORS = {'fingerprint:compared': 500, 'output:compared-with-fresh-copy': 500, 'firstuse:process-pairs-compared': 4}
 FORMATS = {
     'en': ('auto', 'auto_extended', 'xml', 'jigg_xml', 'conll', 'json', 'ptb', 'deriv', 'html', 'prolog', 'ja'),
     'ja': ('auto', 'deriv', 'ja', 'conll', 'html', 'jigg_xml', 'ptb', 'json', 'prolog'),
@@ -23,7 +24,9 @@ FORMATS = {
 def shards(tier, seed):
     q = tier == 'quick'
     return [{'name': f'{lang}{k}', 'lang': lang, 'cases': 120 if q else 6000, 'budget_s': 45 if q else 600}
-            for lang in ('en', 'ja') for k in range(6)]
+            for lang in ('en', 'ja') for k in range(6)] + \
+           [{'name': f'firstuse-{lang}', 'kind': 'firstuse', 'lang': lang, 'cases': 4 if q else 60, 'budget_s': 60 if q else 600}
+            for lang in ('en', 'ja')]
 
 
 def fingerprint(batch):
@@ -79,7 +82,76 @@ def renderers(lang):
     return out
 
 
+CHILD = ("import sys, json, pickle, copy; sys.path.insert(0, %r); sys.setrecursionlimit(20000)\n"
+         "from vlib import env; env.install(%r); env.stub_native_parsing()\n"
+         "from vlib.checks import C18\n"
+         "rend = C18.renderers(%r); batch = pickle.load(open(%r, 'rb')); out = {}\n"
+         "for name in %r:\n"
+         "    try:\n"
+         "        out[name] = rend[name](copy.deepcopy(batch))\n"
+         "    except Exception as e:\n"
+         "        out[name] = 'raised ' + repr(e)\n"
+         "print(json.dumps(out))\n")
+
+
+def run_firstuse(spec, R):
+    """state a printer module keeps for the life of the process (memo tables, counters) is invisible to comparisons made
+    inside that process; here each order of formats gets a fresh interpreter and the outputs are compared across them"""
+    import json
+    import os
+    import pickle
+    import subprocess
+    import sys
+    import tempfile
+    lang = spec['lang']
+    env.install(lang)
+    env.stub_native_parsing()
+    names = sorted(renderers(lang))
+    rng = shard_rng(ID, spec['seed'], spec['name'])
+    tmp = tempfile.mkdtemp(prefix='verif-c18-')
+    path = os.path.join(tmp, 'batch.pkl')
+    try:
+        for i in range(spec['cases']):
+            batch = treegen.make_batch(rng, lang, 'all', max_sentences=4, max_nbest=2, attr_domain='all')
+            # every kind of word the printers rewrite occurs at least once
+            from depccg.types import Token
+            toks = [t for trees in batch for t in trees[0].tree.tokens]
+            for t, w in zip(rng.sample(toks, min(len(toks), 4)), rng.sample(treegen.BRACKET_WORDS + ['<', '>', 'a<b', "'", 'x\\y'], 4)):
+                t['word'] = w          # representable or not: only outputs are compared with outputs here
+            with open(path, 'wb') as f:
+                pickle.dump(batch, f)
+            order = names[:]
+            rng.shuffle(order)
+            dump = repr([[treegen.tree_dump(st.tree) for st in t] for t in batch])
+            R.case(stable_hash((order, dump)), True)
+            outs = []
+            for o in (order, order[::-1]):
+                r = subprocess.run([sys.executable, '-c', CHILD % (env.VERIF, lang, lang, path, o)], capture_output=True, text=True,
+                                   env=dict(os.environ, PYTHONWARNINGS='ignore'), timeout=300)
+                try:
+                    outs.append(json.loads(r.stdout.strip().split('\n')[-1]))
+                except Exception:
+                    outs.append(None)
+            if outs[0] is None or outs[1] is None:
+                R.count('firstuse:child-failed')
+                continue
+            R.count('firstuse:process-pairs-compared')
+            for name in names:
+                if outs[0].get(name) != outs[1].get(name):
+                    R.violation('print:output-changes', f'{name} renders the same results differently in a fresh process when the formats '
+                                f'are first used in the reverse order', {'lang': lang, 'order': order, 'format': name, 'batch': dump[:3000],
+                                                                        'got': str(outs[0].get(name))[:600], 'want': str(outs[1].get(name))[:600]})
+                    break
+            if R.out_of_time():
+                break
+    finally:
+        import shutil
+        shutil.rmtree(tmp, ignore_errors=True)
+
+
 def run(spec, R):
+    if spec.get('kind') == 'firstuse':
+        return run_firstuse(spec, R)
     lang = spec['lang']
     env.install(lang)
     env.stub_native_parsing()
